@@ -41,6 +41,32 @@ def grad(expr, xs):
     return np.array([SE(sp.diff(expr.e, x.e)) for x in xs], dtype=object)
 
 
+def _at_point(f):
+    """decorator: evaluate the model function on dummy symbols and substitute the (possibly compound) argument afterwards, so that
+    derivatives at compound arguments become Subs(Derivative(...)) objects (chain rule handled by sympy)"""
+    def wrapped(self, q):
+        q = to_obj(np.asarray(q, dtype=object))
+        if all(x.e.is_Symbol for x in q):
+            return f(self, q)
+        xs = [sym(f"_arg{i}") for i in range(len(q))]
+        res = f(self, np.array(xs, dtype=object))
+        mapping = {x.e: v.e for x, v in zip(xs, q)}
+
+        def sub(o):
+            if isinstance(o, SE):
+                return SE(sp.Subs(o.e, list(mapping), list(mapping.values())).doit())
+            if isinstance(o, np.ndarray):
+                out = np.empty(o.shape, dtype=object)
+                for idx in np.ndindex(o.shape):
+                    out[idx] = sub(o[idx])
+                return out
+            if isinstance(o, tuple):
+                return tuple(sub(x) for x in o)
+            return o
+        return sub(res)
+    return wrapped
+
+
 class Model:
     """uninterpreted user functions on R^DIM with their documented derivative functions"""
 
@@ -51,6 +77,7 @@ class Model:
     def neg_log_dens(self, q):
         return ufunc("ell", *q)
 
+    @_at_point
     def grad_neg_log_dens(self, q):
         v = self.neg_log_dens(q)
         g = grad(v, q)
@@ -440,3 +467,161 @@ def c07_cases(S, M, ST, O, which):
             O.eq(tag + f"/dh2_flow_dmom-position-block[{tl}]", lambda: blocks()[0], lambda: true_blocks()[0], "dh2_flow_dmom[0] == d pos(t) / d mom")
             O.eq(tag + f"/dh2_flow_dmom-momentum-block[{tl}]", lambda: blocks()[1], lambda: true_blocks()[1], "dh2_flow_dmom[1] == d mom(t) / d mom")
     return len(cases)
+
+
+# ---------------------------------------------------------------------------------------
+# C08: momentum updates / C04: closed-form cotangent projection
+
+
+def _c08_systems(S, M, model):
+    n = DIM
+    out = []
+    for label, marg, view in metrics(M, n):
+        out.append((f"Euclidean[{label}]", lambda marg=marg: S.EuclideanMetricSystem(model.neg_log_dens, metric=marg, grad_neg_log_dens=model.grad_neg_log_dens), lambda q, v=view: v, None))
+        if label not in ("implicit identity (default)",):
+            out.append((f"DenseConstrained[{label}]", lambda marg=marg: S.DenseConstrainedEuclideanMetricSystem(
+                model.neg_log_dens, model.constr, metric=marg, grad_neg_log_dens=model.grad_neg_log_dens, jacob_constr=model.jacob_constr, mhp_constr=model.mhp_constr), lambda q, v=view: v, model))
+    out.append(("ScalarRiemannian", lambda: S.ScalarRiemannianMetricSystem(model.neg_log_dens, model.metric_scalar, vjp_metric_scalar_func=model.vjp_metric_scalar,
+                                                                          grad_neg_log_dens=model.grad_neg_log_dens), lambda q: model.metric_scalar(q) * eye(n), None))
+    out.append(("DiagonalRiemannian", lambda: S.DiagonalRiemannianMetricSystem(model.neg_log_dens, model.metric_diag, vjp_metric_diagonal_func=model.vjp_metric_diag,
+                                                                              grad_neg_log_dens=model.grad_neg_log_dens), lambda q: np.diag(model.metric_diag(q)), None))
+    out.append(("CholeskyRiemannian", lambda: S.CholeskyFactoredRiemannianMetricSystem(model.neg_log_dens, model.metric_chol, vjp_metric_chol_func=model.vjp_metric_chol,
+                                                                                      grad_neg_log_dens=model.grad_neg_log_dens), lambda q: model.metric_dense(q), None))
+    out.append(("DenseRiemannian", lambda: S.DenseRiemannianMetricSystem(model.neg_log_dens, model.metric_dense, vjp_metric_func=model.vjp_metric_dense,
+                                                                        grad_neg_log_dens=model.grad_neg_log_dens), lambda q: model.metric_dense(q), None))
+    # low-rank and block metrics (constant)
+    F, dp = mat("f", n, 1), posvec("m", n)
+    out.append(("Euclidean[positive-definite low-rank update]", lambda: S.EuclideanMetricSystem(
+        model.neg_log_dens, metric=M.PositiveDefiniteLowRankUpdateMatrix(M.DenseRectangularMatrix(F), M.PositiveDiagonalMatrix(dp)), grad_neg_log_dens=model.grad_neg_log_dens),
+        lambda q: np.diag(dp) + F @ F.T, None))
+    s1 = sym("s", positive=True)
+    out.append(("Euclidean[block diagonal]", lambda: S.EuclideanMetricSystem(
+        model.neg_log_dens, metric=M.PositiveDefiniteBlockDiagonalMatrix((M.PositiveScaledIdentityMatrix(s1, 1), M.PositiveScaledIdentityMatrix(dp[0], 1))),
+        grad_neg_log_dens=model.grad_neg_log_dens), lambda q: np.diag(np.array([s1, dp[0]], dtype=object)), None))
+    return out
+
+
+def c08_cases(S, M, ST, O, which):
+    n = DIM
+    model = Model(False)
+    model.n_constr = 1
+    cases = _c08_systems(S, M, model)
+    if which < 0 or which >= len(cases):
+        return len(cases)
+    label, mk, view_fn, cmodel = cases[which]
+    tag = f"systems.{label}"
+    system = mk()
+    st, q, p = new_state(ST, n)
+    rng = Rng()
+    Mv = to_obj(view_fn(q))
+    got = to_obj(system.sample_momentum(st, rng))
+    z = np.array(rng.draws, dtype=object)
+    O.flag(tag + "/sample_momentum-draws-one-standard-normal-per-dimension", len(z) == n, f"{len(z)} draws for dimension {n}",
+           "sample_momentum draws exactly dim standard normal variates from the generator it is given")
+    if len(z) != n:
+        return len(cases)
+    Lmat = jac(got, list(z))  # coefficient of z: the map is linear iff got == L z
+    O.eq(tag + "/sample_momentum-is-linear-in-the-draw", lambda: got, lambda: Lmat @ z, "sample_momentum == L z exactly (no offset, no non-linearity)")
+    if cmodel is None:
+        O.eq(tag + "/momentum-covariance-is-the-metric-at-the-current-position", lambda: Lmat @ Lmat.T, lambda: Mv, "L L^T == metric(state.pos)")
+    else:
+        J = to_obj(jac(cmodel.constr(q), q))
+        Minv = dense_inv(Mv)
+        P = eye(n) - J.T @ dense_inv(J @ Minv @ J.T) @ J @ Minv
+        O.eq(tag + "/momentum-covariance-is-the-projected-metric", lambda: Lmat @ Lmat.T, lambda: P @ Mv @ P.T, "L L^T == P M P^T (Gaussian law projected onto the cotangent space)")
+        O.eq(tag + "/sampled-momentum-in-cotangent-space", lambda: J @ Minv @ got, lambda: np.array([SE(0)], dtype=object), "J M^-1 mom == 0")
+        # closed-form projection (C04): annihilates J M^-1 p, changes p only within range(J^T), is idempotent
+        mom = vec("r", n)
+        proj = to_obj(system.project_onto_cotangent_space(mom.copy(), st))
+        O.eq(tag + "/projection-lands-in-cotangent-space", lambda: J @ Minv @ proj, lambda: np.array([SE(0)], dtype=object), "J M^-1 P(p) == 0")
+        O.eq(tag + "/projection-correction-in-range-of-JT", lambda: (eye(n) - J.T @ dense_inv(J @ J.T) @ J) @ (proj - mom), lambda: np.array([SE(0)] * n, dtype=object),
+             "P(p) - p is a linear combination of the constraint gradients (Lagrange-multiplier form)")
+        O.eq(tag + "/projection-idempotent", lambda: to_obj(system.project_onto_cotangent_space(proj.copy(), st)), lambda: proj, "P(P(p)) == P(p)")
+    return len(cases)
+
+
+def c04_obligations(run_, tier):
+    """closed-form cotangent projection and projected momentum sampling (Engine B part of C04)"""
+    run_.function("mici.systems.ConstrainedEuclideanMetricSystem.project_onto_cotangent_space")
+    run_cases(run_, "c08_cases", keep=lambda oid: "DenseConstrained" in oid and any(k in oid for k in ("projection-", "cotangent")))
+
+
+# ---------------------------------------------------------------------------------------
+# C03: symplecticity of the explicit component flows and of explicit steps
+
+
+class PolyModel:
+    """target family with symbolic coefficients (cubic, non-separable) used for the whole-step obligations, where nested applications of
+    an uninterpreted function are not simplified reliably by sympy; those obligations are labelled bounded (one function family)"""
+
+    def __init__(self):
+        xs = sp.symbols(f"_y0:{DIM}", real=True)
+        self.xs = xs
+        a, b, c = sp.symbols("a_poly b_poly c_poly", real=True)
+        # a three-parameter family of non-separable cubic targets (mixed second derivatives are non-zero and position dependent)
+        self.poly = a * xs[0] ** 3 + b * xs[0] * xs[-1] ** 2 + c * xs[0] * xs[-1] + xs[-1] ** 2 / 2
+
+    def neg_log_dens(self, q):
+        q = to_obj(np.asarray(q, dtype=object))
+        return SE(self.poly.subs({x: v.e for x, v in zip(self.xs, q)}, simultaneous=True))
+
+    def grad_neg_log_dens(self, q):
+        q = to_obj(np.asarray(q, dtype=object))
+        m = {x: v.e for x, v in zip(self.xs, q)}
+        return np.array([SE(sp.diff(self.poly, x).subs(m, simultaneous=True)) for x in self.xs], dtype=object)
+
+
+def omega(n):
+    J = np.empty((2 * n, 2 * n), dtype=object)
+    for i in range(2 * n):
+        for j in range(2 * n):
+            J[i, j] = SE(1 if j == i + n else (-1 if i == j + n else 0))
+    return J
+
+
+def c03_cases(S, M, ST, O, which):
+    import importlib
+    n = DIM
+    model = Model(False)
+    flows = []
+    for label, marg, view in metrics(M, n):
+        if label == "Cholesky-factored":
+            flows.append((f"Euclidean[{label}]", lambda marg=marg: S.EuclideanMetricSystem(model.neg_log_dens, metric=marg, grad_neg_log_dens=model.grad_neg_log_dens)))
+            continue
+        flows.append((f"Euclidean[{label}]", lambda marg=marg: S.EuclideanMetricSystem(model.neg_log_dens, metric=marg, grad_neg_log_dens=model.grad_neg_log_dens)))
+        flows.append((f"Gaussian[{label}]", lambda marg=marg: S.GaussianEuclideanMetricSystem(model.neg_log_dens, metric=marg, grad_neg_log_dens=model.grad_neg_log_dens)))
+    steps = [("LeapfrogIntegrator", "Euclidean[diagonal array]", 3), ("LeapfrogIntegrator", "Gaussian[diagonal array]", 4), ("BCSSTwoStageIntegrator", "Euclidean[IdentityMatrix(n)]", 1)]
+    total = 2 * len(flows) + len(steps)
+    if which < 0 or which >= total:
+        return total
+    Om = omega(n)
+    t = sym("t")
+
+    def jacobian_of(fn):
+        st, q, p = new_state(ST, n)
+        fn(st)
+        out = np.concatenate([to_obj(st.pos), to_obj(st.mom)])
+        return jac(out, list(q) + list(p))
+    if which < 2 * len(flows):
+        label, mk = flows[which // 2]
+        system = mk()
+        fname = "h1_flow" if which % 2 == 0 else "h2_flow"
+        tag = f"systems.{label}.{fname}"
+        Jm = jacobian_of(lambda st: getattr(system, fname)(st, t))
+        O.eq(tag + "/jacobian-is-symplectic", lambda: Jm.T @ Om @ Jm, lambda: Om, f"J^T Omega J == Omega for the Jacobian of {fname} (symbolic time and state, any smooth target)")
+        return total
+    iname, slabel, idx = steps[which - 2 * len(flows)]
+    I = importlib.import_module("mici.integrators")
+    pm = PolyModel()
+    marg = {"Euclidean[diagonal array]": posvec("m", n), "Gaussian[diagonal array]": posvec("m", n), "Euclidean[IdentityMatrix(n)]": M.IdentityMatrix(n)}[slabel]
+    cls = S.GaussianEuclideanMetricSystem if slabel.startswith("Gaussian") else S.EuclideanMetricSystem
+    system = cls(pm.neg_log_dens, metric=marg, grad_neg_log_dens=pm.grad_neg_log_dens)
+    eps = sym("eps", positive=True)
+    integ = getattr(I, iname)(system, step_size=eps)
+    st, q, p = new_state(ST, n)
+    new = integ.step(st)
+    out = np.concatenate([to_obj(new.pos), to_obj(new.mom)])
+    Jm = jac(out, list(q) + list(p))
+    O.eq(f"integrators.{iname}.step[{slabel}]/jacobian-is-symplectic", lambda: Jm.T @ Om @ Jm, lambda: Om,
+         "J^T Omega J == Omega for one full step of the real integrator on the real system (target family: a q0^3 + b q0 q1^2 + c q0 q1 + q1^2/2 with symbolic a, b, c)")
+    return total
